@@ -351,8 +351,8 @@ def stratified_two_sample(
     stats = {
         'mean': lambda u: np.nanmean(u[:ntreat]) - np.nanmean(u[ntreat:]),
         't': lambda u: ttest_ind(
-            u[:len(x)][~np.isnan(u[:ntreat])],
-            u[len(x):][~np.isnan(u[ntreat:])],
+            u[:ntreat][~np.isnan(u[:ntreat])],
+            u[ntreat:][~np.isnan(u[ntreat:])],
             equal_var=True)[0],
         'mean_within_strata': lambda u: stratified_permutationtest_mean(group,
                                                                         condition,
